@@ -10,7 +10,9 @@ ID = 'C11'
 LEVEL = 'exploration'
 RULE = ('one handler under test per case - change handler, sub-handler, daemon, timer or startup activity - with generated errors '
         'mode x retries x timeout x backoff x outcome script (ok / TemporaryError(delay) / PermanentError / arbitrary) x attempt '
-        'durations, run in the closed loop (change handlers also across graceful restarts). Oracle: the observed attempt sequence '
+        'durations, run in the closed loop (change handlers also across graceful restarts, and across a supersession of their cause while '
+        'they wait for a retry: a resume handler of an object edited meanwhile, one function serving updates and deletions of an object '
+        'deleted meanwhile). Oracle: the observed attempt sequence '
         '(start, end, retry kwarg) is replayed against an executable reading of docs/errors.rst: retry numbers 0,1,2..., next start '
         '>= previous end + requested delay/backoff, nothing after a final outcome, at most retries=N invocations, no start at or '
         'after first start + timeout, a due retry does happen (bounded liveness), a record that reached a limit says failure. '
@@ -20,13 +22,15 @@ ASSUMPTIONS = [
     'graceful restarts only (an attempt cut by a kill is legitimately repeated with the same retry number)',
     'the API-server model and virtual time of kopfsim; liveness bound = sum of requested delays + 60 s',
 ]
-BUDGET = {'quick': 40, 'thorough': 1000}
+BUDGET = {'quick': 100, 'thorough': 1000}
 EPS = 1e-6
 
 
 @st.composite
 def scenarios(draw):
-    kind = draw(st.sampled_from(['create', 'create', 'update', 'sub', 'daemon', 'timer', 'startup']))
+    # 'resume' and 'updel': the handler's cause is superseded by another cause that selects it too while it waits for its retry
+    # (a resume handler of an object edited meanwhile; one function serving updates and deletions of an object deleted meanwhile)
+    kind = draw(st.sampled_from(['create', 'create', 'update', 'sub', 'daemon', 'timer', 'startup', 'resume', 'updel']))
     delays = st.sampled_from([0.0, 0.5, 1.0, 3.0, 7.0])
     steps = st.one_of(st.builds(lambda d: {'o': 'temp', 'delay': d}, delays), st.builds(lambda d: {'o': 'temp', 'delay': d}, delays),
                       st.just({'o': 'err'}), st.just({'o': 'err'}), st.just({'o': 'perm'}), st.just({'o': 'ok'}))
@@ -42,7 +46,9 @@ def scenarios(draw):
     # downtimes: short, and day-scale (virtual time makes a multi-day outage free)
     downs = [draw(st.sampled_from([1.0, 1.0, 3.0, 86400.0 + 2.0, 3 * 86400.0 + 1.5, 86400.0 - 1.0])) for _ in restarts]
     h['timeout'] = draw(st.sampled_from([h['timeout'], h['timeout'], 2.5, 6.5, 600.0])) if restarts else h['timeout']
-    return {'kind': kind, 'h': h, 'restarts': restarts, 'downs': downs, 'default_backoff': draw(st.sampled_from([2.0, 5.0])),
+    if kind == 'updel':
+        h['retries'] = h['timeout'] = None      # (a handler that finished in the update cycle starts afresh in the deletion cycle)
+    return {'kind': kind, 'h': h, 'restarts': restarts, 'downs': downs, 'supersede_at': draw(st.sampled_from([0.0, 0.2, 1.0, 2.5, 5.0, 9.0])), 'default_backoff': draw(st.sampled_from([2.0, 5.0])),
             'lifecycle': draw(st.sampled_from(['asap', 'all_at_once'])), 'sibling': draw(st.booleans()),
             'status_sub': draw(st.booleans())}
 
@@ -64,6 +70,13 @@ def build_spec(sc):
         hid = 'hx'
     elif kind == 'startup':
         handlers.append(dict(h, kind='startup'))
+        hid = 'hx'
+    elif kind == 'resume':
+        handlers.append({'kind': 'create', 'id': 'c0', 'script': []})
+        handlers.append(dict(h, kind='resume'))
+        hid = 'hx'
+    elif kind == 'updel':
+        handlers.append(dict(h, kind='update', also=['delete']))
         hid = 'hx'
     else:
         handlers.append(dict(h, kind=kind))
@@ -95,6 +108,11 @@ def run_case(sc):
     actions = [{'a': 'create', 'obj': 0, 'v': 1, 'dt': 1.0}]
     if sc['kind'] == 'update':
         actions.append({'a': 'edit_spec', 'obj': 0, 'v': 2, 'dt': 0.0})
+    if sc['kind'] == 'resume':
+        actions += [{'a': 'restart', 'how': 'stop', 'down': 1.0, 'dt': sc.get('supersede_at', 1.0), 'grace': 10.0},
+                    {'a': 'edit_spec', 'obj': 0, 'v': 2, 'dt': 0.0}]
+    if sc['kind'] == 'updel':
+        actions += [{'a': 'edit_spec', 'obj': 0, 'v': 2, 'dt': sc.get('supersede_at', 1.0)}, {'a': 'delete', 'obj': 0, 'dt': 0.0}]
     t_prev = 0.0
     for i, t in enumerate(sc['restarts']):
         actions.append({'a': 'advance', 'dt': t - t_prev})
@@ -116,12 +134,17 @@ def run_case(sc):
         calls = [c for c in sim.trace if c.get('k') == 'call' and c['hid'] == hid]
         if sc['kind'] == 'update':
             calls = [c for c in calls if c.get('reason') == 'update']
+        if sc['kind'] in ('resume', 'updel') and len({c.get('reason') for c in calls}) > 1:
+            res.label('cause-superseded-between-attempts')
         # series: for timers a success starts a new series
         series, cur = [], []
         for c in calls:
             cur.append(c)
             if sc['kind'] == 'timer' and (c['outcome'] == 'ok' or (c['outcome'] == 'err' and mode == 'ignored')):
                 series.append(cur)
+                cur = []
+            elif sc['kind'] == 'updel' and final_of(c['outcome'], mode):
+                series.append(cur)      # finished for the update: the deletion is another cycle
                 cur = []
         if cur:
             series.append(cur)
